@@ -1,7 +1,9 @@
 #!/usr/bin/env python3
 """C12 — creating boards: proofs in coq/Props/C12.v; correspondence of the executable model with
 bbs.CreateBoard / api.CreateBoard on real shared memory, and direct predicates (accept / frame / refuse /
-name rule) on the implementation's own bytes."""
+name rule / lookup = scan) on the implementation's own bytes. Two drivers: the default build (MAX_BOARD = 100,
+small and full tables, every byte printed) and the production build (-tags docker, MAX_BOARD = 20000: tables of
+2000 .. 20000 boards, duplicate detection for the names that sit deepest in the by-name binary search)."""
 import os, sys, struct, itertools
 from concurrent.futures import ThreadPoolExecutor
 sys.path.insert(0, os.path.join(os.path.dirname(os.path.abspath(__file__)), "..", "lib"))
@@ -25,8 +27,14 @@ def cstr(b):
     return b if i < 0 else b[:i]
 
 
+_FOLD = {}
+
+
 def fold(b):
-    return bytes(c + 32 if 65 <= c <= 90 else c for c in cstr(b))
+    r = _FOLD.get(b)
+    if r is None:
+        r = _FOLD[b] = cstr(b).lower()      # bytes.lower() folds exactly A-Z
+    return r
 
 
 def toks(bs):
@@ -160,6 +168,10 @@ def less_class(c, i, j):
 def sorted_perm(arr, n, cache, less):
     if sorted(arr) != list(range(n)):
         return False
+    if n > 200:  # big tables: sort keys (bytes compare = Cstrcmp on NUL-free prefixes), adjacent pairs
+        kn = [fold(cache[i][0:13]) for i in range(n)]
+        key = kn if less is less_name else [(cstr(cache[i][13:17]), kn[i]) for i in range(n)]
+        return all(key[arr[i]] <= key[arr[i + 1]] for i in range(n - 1))
     if n > 40:   # adjacent pairs suffice for a strict weak order; the small tables are checked pairwise
         return all(not less(cache, arr[i + 1], arr[i]) for i in range(n - 1))
     return all(not less(cache, arr[j], arr[i]) for i in range(n) for j in range(i + 1, n))
@@ -189,6 +201,7 @@ def main():
     c.prove()
     model_ok = c.model_ok()
     impl = vf.build_impl()
+    impl_docker = vf.build_impl(tags="verif docker", name="implrun_docker")      # the production configuration: MAX_BOARD = 20000
     model = vf.build_model("C12") if model_ok else None
     vf.ipc_cleanup()
 
@@ -369,11 +382,54 @@ def main():
     crash_seen = {}
     mlines, mexpect = [], []
 
-    def viol(key, desc, cs, nreq, got):
-        c.violation(key, desc, {"cases": [line_of(cs, nreq)], "got": got})
+    class Ctx:
+        """where a case runs: the default build (MAX_BOARD = 100, op 1) or the production build (op 6)"""
+        def __init__(self, build, maxb, run, line_of, split, pool_of):
+            self.build, self.maxb, self.run, self.line_of, self.split, self.pool_of = build, maxb, run, line_of, split, pool_of
 
-    def check_case(cs, line):
-        obs = split_obs(line, npool)
+    def report(key, desc, cs, nreq, got, ctx=None):
+        ctx = ctx or ctx_default
+        rp = {"cases": [ctx.line_of(cs, nreq)], "got": got}
+        if ctx.build != "default":
+            if not any(pk == (c.pid, key) for pk in [(x[0], x[1]) for x in c.known]):      # a known finding keeps its key in every build
+                key = key + "@" + ctx.build
+            desc = "[%s build, MAX_BOARD = %d, table of %d slots] %s" % (ctx.build, ctx.maxb, len(cs.slots), desc)
+            rp.update({"build": "-tags " + ctx.build, "driver": "build/implrun_docker C12", "table_slots": len(cs.slots), "table": cs.tag,
+                       "requests": [(r.caller, r.cls, repr(r.name)) for r in cs.reqs[:nreq]],
+                       "note": "the case line is op 6: the input of op 1 (table, requests), every observation printed as its difference to the previous one"})
+        c.violation(key, desc, rp)
+
+    def scan_lookup(cs, ctx, o, nreq, pool, memo):
+        """GetBid of every pool name against a scan of the shared-memory table (C12_lookup_is_scan_any_size on the implementation's own state)"""
+        if memo.get("cache") is not o.cache:
+            byf = {}
+            for i in range(min(o.bnum, len(o.cache))):
+                nm = cstr(o.cache[i][:13])
+                if nm:
+                    byf.setdefault(fold(nm), []).append(i + 1)
+            memo["cache"], memo["byf"] = o.cache, byf
+        byf = memo["byf"]
+        for pi, pn in enumerate(pool):
+            if not cstr(pn):
+                continue
+            want = byf.get(fold(pn), [])
+            got = o.getbid[pi]
+            if (got not in want) if want else (got != 0):
+                kind = "missed" if want and got == 0 else "phantom" if not want else "wrong-slot"
+                report("lookup-not-scan:%s" % kind, "after request %d: GetBid(%r) = %d, but a scan of the %d boards finds %s" % (
+                    nreq, cstr(pn), got, o.bnum, ("slot %d carrying %r" % (want[0], cstr(o.cache[want[0] - 1][:13]))) if want else "no board of that name"), cs, nreq,
+                    {"name": repr(cstr(pn)), "GetBid": got, "scan": want[:4]}, ctx)
+                return
+
+    def check_case(cs, line, ctx=None):
+        ctx = ctx or ctx_default
+        MAXB, POOL, run_i, line_of = ctx.maxb, ctx.pool_of(cs), ctx.run, ctx.line_of
+        def viol(key, desc, cs, nreq, got):     # the predicates below report through the context
+            report(key, desc, cs, nreq, got, ctx)
+        obs = ctx.split(cs, line)
+        memo = {}
+        if obs is not None:
+            scan_lookup(cs, ctx, obs[0], 0, POOL, memo)
         if obs is None:
             # a request crashed or hung: find it (only for the first few such cases; the others are counted)
             dist["crashed-or-hung cases"] = dist.get("crashed-or-hung cases", 0) + 1
@@ -426,7 +482,11 @@ def main():
             dist_key = "%s/%s" % (ERR.get(o.code, "?"), "vacated" if vacated else "append")
             dist[dist_key] = dist.get(dist_key, 0) + 1
             c.nontrivial((cs.tag != "router", tuple(s.bytes()[:13] for s in cs.slots), tuple((x.caller, x.cls, x.name, tuple(x.bms), x.attr, x.level, x.group) for x in cs.reqs[:nreq])))
-            sp_ok = all(sorted_perm(arr, o.bnum, o.cache, less) for arr, less in ((o.sn, less_name), (o.sc, less_class))) if o.bnum <= len(o.cache) else False
+            if ctx.build != "default" and o.sn == prev.sn and o.sc == prev.sc and o.cache == prev.cache and o.bnum == prev.bnum and qi > 0:
+                pass      # nothing the verdict depends on has changed since the previous observation
+            else:
+                sp_ok = all(sorted_perm(arr, o.bnum, o.cache, less) for arr, less in ((o.sn, less_name), (o.sc, less_class))) if o.bnum <= len(o.cache) else False
+            scan_lookup(cs, ctx, o, nreq, POOL, memo)
             if not sp_ok:
                 viol("index-not-sorted-permutation", "a BSorted array is not a sorted permutation of the slots after request %d" % nreq, cs, nreq, [o.sn, o.sc])
             if o.code != 0:
@@ -534,6 +594,7 @@ def main():
             prev = o
         return line, len(cs.reqs)
 
+    ctx_default = Ctx("default", MAXB, run_i, line_of, lambda cs, line: split_obs(line, npool), lambda cs: POOL)
     mcases = []
     for cs, line in zip(cases, out):
         good, n = check_case(cs, line)
@@ -545,6 +606,223 @@ def main():
         mexpect.append(shared_line(line))
         mcases.append(cs)
     tick("direct predicates")
+
+    # ---------------------------------------------------------------- production build (-tags docker, MAX_BOARD = 20000): big tables
+    # Duplicate detection, frame and refusal in tables of thousands of boards: the by-name lookup is a binary search whose depth
+    # grows with the table, so names that sit deep in the search exist only here. Same predicates as above (check_case), on
+    # states rebuilt from the differences op 6 prints; plus GetBid of EVERY name of the table in two letter cases against a scan.
+    def run_d(lines):
+        return vf.run_impl(impl_docker, "C12", lines, deadline_ms=120000)
+    kd = run_d(["0"])[0].split()
+    if kd[0] != "0":
+        raise SystemExit("C12 docker driver: cannot read constants: %s" % kd[:4])
+    constsd = [int(x) for x in kd[1:11]]
+    MAXBD = constsd[0]
+    if constsd != [20000, 12, 256, 1, 163, 85, 161, 183, 4, 2000000]:
+        c.broken.append({"kind": "correspondence", "where": "constants (docker)", "theorem": "compiled constants of the production build (MAX_BOARD = 20000, ...) as expected", "log": str(constsd)})
+    usersd, rest = {}, kd[11:]
+    while rest:
+        usersd[int(rest[1])] = (int(rest[2]), bytes(int(x) for x in rest[3:16]))
+        rest = rest[16:]
+    if usersd != users:
+        raise SystemExit("C12 docker driver: user table differs from the default build's")
+    Z256 = b"\0" * 256
+    RESERVED = {b"newbrd", b"zz", b"qq", b"alpha", b"ab", b"cd", b"a-b_c.d", b"x9"}
+
+    def seq_names(n):
+        return [b"b%05d" % i for i in range(n)]
+
+    def mixed_names(n):
+        seen, out = set(RESERVED), []
+        al, okc = bytes(sorted(ALPHA)), bytes(sorted(OKCH))
+        while len(out) < n:
+            L = rng.choice([2, 3, 4, 6, 9, 12, 12])
+            nm = bytes([rng.choice(al)] + [rng.choice(okc) for _ in range(L - 1)])
+            if nm.lower() not in seen:
+                seen.add(nm.lower()); out.append(nm)
+        return out
+
+    def big_table(names, holes=()):
+        t = []
+        for i, nm in enumerate(names):
+            if i == 0:
+                t.append(occ(0))                                  # Alpha: the class board the requests are filed under (moderator pichu)
+            elif i in holes:
+                t.append(vac(i % 2, 0x11))
+            else:
+                t.append(Slot(nm, b"Cl%02d " % (i % 7) + BRD + b"t", b"", 0, 0, 0, 1, i % 251))
+        return t
+
+    def probe_depths(n):
+        """number of probes getBidByNameCore needs to reach sorted position p (the loop of cache/cache_board.go on comparisons by position)"""
+        depth = [0] * n
+        for p in range(n):
+            start, end, k = 0, n - 1, 0
+            while True:
+                idx = (start + end) // 2
+                k += 1
+                if idx == p or end == start:
+                    break
+                if idx == start:
+                    if p < idx:
+                        break
+                    start = end
+                elif p > idx:
+                    start = idx
+                else:
+                    end = idx
+            depth[p] = k
+        return depth
+
+    def big_case(names, holes, with_dirs, via, tag):
+        t = big_table(names, holes)
+        n = len(t)
+        nms = [cstr(pad(x.name, 13)) for x in t]
+        order = sorted(range(n), key=lambda i: (fold(nms[i]), i))
+        depth = probe_depths(n)
+        occp = [p for p in range(n) if nms[order[p]]]
+        by_depth = sorted(occp, key=lambda p: (-depth[p], p))
+        deepest = [order[p] for p in by_depth[:3]]
+        first, last = order[occp[0]], order[occp[-1]]
+        picks = deepest + [first, last] + [order[rng.choice(occp)] for _ in range(3)]
+        var = [bytes.swapcase, bytes.upper, lambda x: x, bytes.lower]
+        reqs = [Req("admin", 1, var[j % 4](nms[i])) for j, i in enumerate(picks)]
+        reqs += [Req("admin", 1, nms[deepest[0]]), Req("sysop", 1, nms[deepest[1]].swapcase()), Req("admin", 1, nms[first].upper()), Req("admin", 1, nms[first])]
+        reqs += [Req("admin", 1, b"Newbrd", bms=[b"pichu"]), Req("admin", 1, b"NEWBRD"), Req("mod", 1, b"zz"), Req("plain", 1, b"qq"), Req("admin", 1, b"ab/cd"),
+                 Req("admin", 1, b"ZZ"), Req("admin", 2, b"x9", klass=b"Cl01", title=b"t" * 42, level=PERM_POST), Req("admin", 1, nms[deepest[2]].swapcase()), Req("admin", 1, b"newbrd")]
+        cs = Case(t, reqs, dirs=[x for x in nms if x] if with_dirs else [], via=via, tag=tag)
+        pool = []
+        seenp = set()
+        for x in [r.name for r in reqs] + [b"Alpha", b"qq", b"ab", b"cd"] + [v for nm in nms if nm for v in (nm, nm.swapcase())]:
+            x13 = pad(x, 13)
+            if cstr(x13) and x13 not in seenp:
+                seenp.add(x13); pool.append(x13)
+        cs.pool = pool
+        cs.max_depth = depth[by_depth[0]]
+        cs.deep_names = [nms[i] for i in deepest]
+        return cs
+
+    sizes = [2000, 4100, 6000]
+    bcases = []
+    for n in sizes:
+        bcases.append(big_case(seq_names(n), (), False, 0, "big:%d:sequential-names" % n))
+        bcases.append(big_case(mixed_names(n), (n // 3, n - 1), True, 0, "big:%d:mixed-names+vacated+directories" % n))
+    bcases.append(big_case(seq_names(4100), (7,), False, 1, "big:4100:router"))
+    if thorough:
+        for n in [1024, 1025, 2047, 2048, 2049, 3000, 8191, 8192, 8193, 12000, MAXBD - 1, MAXBD]:
+            bcases.append(big_case(mixed_names(n), tuple(sorted(rng.sample(range(1, n), rng.randrange(0, 3)))), n % 2 == 0, 0, "big:%d:mixed-names" % n))
+            bcases.append(big_case(seq_names(n), (), False, 0, "big:%d:sequential-names" % n))
+    else:
+        bcases.append(big_case(seq_names(MAXBD), (), False, 0, "big:%d:full-table" % MAXBD))
+
+    def line_of_big(cs, nreq=None, oracles=None):
+        reqs = cs.reqs if nreq is None else cs.reqs[:nreq]
+        if not hasattr(cs, "_sg"):
+            cs._sg = [x.group() for x in cs.slots]
+            cs._ug = users_group(cs)
+        g = ["6 %d %d %d" % (len(cs.slots), len(reqs), cs.via), names_group(cs.pool), names_group(cs.dirs), cs._ug] + cs._sg + [r.group_toks(U) for r in reqs]
+        return "|".join(g)
+
+    class BigObs:
+        pass
+
+    def split_big(cs, line):
+        t = line.split()
+        if t[0] != "0":
+            return None
+        chunks, cur = [], []
+        for x in t[1:]:
+            if x == "-555":
+                chunks.append(cur); cur = []
+            else:
+                cur.append(x)
+        chunks.append(cur)
+        init = [x.bytes() for x in cs.slots]
+        prev = BigObs()
+        prev.file, prev.cache, prev.bmcache, prev.sn, prev.sc = init, [b[:144] + b"\0" * 8 + b[152:] for b in init[:MAXBD]], [], [], []
+        prev.getbid, prev.dirs = [-2] * len(cs.pool), []
+        out = []
+        for ch in chunks:
+            o = BigObs()
+            it = iter(ch)
+            nx = lambda: int(next(it))
+            o.code, o.bid, o.bnum, o.nfile = nx(), nx(), nx(), nx()
+            o.shared = ch[:4]
+            nf = max(o.nfile, 0)
+            nd = nx()
+            if nd == 0 and nf == len(prev.file):
+                o.file = prev.file
+            else:
+                o.file = list(prev.file[:nf]) + [b""] * (nf - len(prev.file))
+                for _ in range(nd):
+                    i, v = nx(), next(it)
+                    if i < nf and v != "0":
+                        o.file[i] = unbig(v)
+            o.k = nx()
+            nd = nx()
+            extra = False
+            if nd == 0 and o.k == len(prev.cache):
+                o.cache = prev.cache
+            else:
+                o.cache = list(prev.cache[:o.k]) + [Z256] * (o.k - len(prev.cache))
+                for _ in range(nd):
+                    i, v = nx(), unbig(next(it))
+                    if i < o.k:
+                        o.cache[i] = v
+                    elif v.strip(b"\0"):
+                        extra = True
+            o.tailzero = nx()
+            if extra:
+                o.tailzero = 0
+            nd = nx()
+            o.bmcache = list(prev.bmcache[:o.k]) + [(-1, -1, -1, -1)] * (o.k - len(prev.bmcache))
+            for _ in range(nd):
+                i = nx()
+                o.bmcache[i] = (nx(), nx(), nx(), nx())
+            if nx():
+                o.sn = [nx() for _ in range(nx())]
+            else:
+                o.sn = prev.sn
+            if nx():
+                o.sc = [nx() for _ in range(nx())]
+            else:
+                o.sc = prev.sc
+            nd = nx()
+            o.getbid = list(prev.getbid) if nd else prev.getbid
+            for _ in range(nd):
+                i = nx()
+                o.getbid[i] = nx()
+            o.ndirs = nx()
+            ds = set(prev.dirs)
+            for _ in range(nx()):
+                ds.add(unbig(next(it)))
+            for _ in range(nx()):
+                ds.discard(unbig(next(it)))
+            o.dirs = sorted(ds)
+            out.append(o)
+            prev = o
+        return out
+
+    ctx_docker = Ctx("docker", MAXBD, run_d, line_of_big, split_big, lambda cs: cs.pool)
+    blines = [line_of_big(cs) for cs in bcases]
+    tick("big cases generated")
+    with ThreadPoolExecutor(WORKERS) as ex:
+        bout = list(ex.map(lambda l: run_d([l])[0], blines))
+    tick("big cases run")
+    c.count(sum(1 + len(cs.reqs) for cs in bcases), "states observed (production build)")
+    c.count(sum(len(cs.pool) * (1 + len(cs.reqs)) for cs in bcases), "GetBid vs scan (production build)")
+    big_obs0 = []
+    for cs, line in zip(bcases, bout):
+        c.cov["distribution"]["cases:" + cs.tag] = 1
+        dist["big tables: deepest name needs %d probes" % cs.max_depth] = dist.get("big tables: deepest name needs %d probes" % cs.max_depth, 0) + 1
+        check_case(cs, line, ctx_docker)
+        ob = split_big(cs, line)
+        big_obs0.append(ob[0] if ob else None)
+    ob = split_big(bcases[2], bout[2])
+    if ob:
+        c.sample({"op": "bbs.CreateBoard on a table of %d boards (-tags docker)" % len(bcases[2].slots), "deepest names (probes %d)" % bcases[2].max_depth: [repr(x) for x in bcases[2].deep_names],
+                  "requests": [(r.caller, repr(r.name)) for r in bcases[2].reqs], "results": [(ERR.get(o.code), o.bid, o.bnum) for o in ob[1:]]})
+    tick("big direct predicates")
     c.cov["distribution"].update({"outcome:" + k: v for k, v in sorted(dist.items())})
 
     # ---------------------------------------------------------------- name rule: IsValid on every short string over a reduced alphabet
@@ -599,7 +877,22 @@ def main():
                 break
         m4 = par(lambda ls: vf.run_model(model, ls), l4)
         vf.correspond(c, "ptttype.NewBM", l4, o4, m4)
-        c.count(len(mlines) + len(l3) * 2 + len(l4), "model evaluations")
+        # big tables: the model's GetBid on (the names in shared memory, the by-name index the implementation built) = the implementation's
+        # GetBid, for the request names, the deepest names and a sample of the table in both letter cases (op 7; C12_big_table_lookup_is_scan)
+        l7, e7 = [], []
+        for cs, o0 in zip(bcases, big_obs0):
+            if o0 is None or o0.bnum > (MAXBD if thorough else 6000) or o0.bnum > len(o0.cache):
+                continue
+            want = set(pad(r.name, 13) for r in cs.reqs) | set(pad(v, 13) for x in cs.deep_names for v in (x, x.swapcase(), x.upper()))
+            idx = [i for i, pn in enumerate(cs.pool) if pn in want]
+            idx += rng.sample(range(len(cs.pool)), min(len(cs.pool), 1200))
+            l7.append("7|%s|%s|%s" % (toks(b"".join(o0.cache[i][:13] for i in range(o0.bnum))), toks(o0.sn), toks(b"".join(cs.pool[i] for i in idx))))
+            e7.append("0 " + toks(o0.getbid[i] for i in idx))
+        with ThreadPoolExecutor(WORKERS) as ex:
+            m7 = list(ex.map(lambda l: vf.run_model(model, [l])[0], l7))
+        vf.correspond(c, "cache.GetBid on big tables (production build) vs model lookup", [l[:200] + " ..." for l in l7], e7, m7)
+        c.count(sum(len(e.split()) - 1 for e in e7), "model lookups on big tables")
+        c.count(len(mlines) + len(l3) * 2 + len(l4) + len(l7), "model evaluations")
     tick("model run")
     k = next((i for i, cs in enumerate(cases) if cs.tag == "pair" and len(cs.slots) == 3), 0)
     ob = split_obs(out[k], npool)
@@ -608,12 +901,20 @@ def main():
                   "results": [(ERR.get(o.code), o.bid, o.bnum) for o in ob[1:]], "by_name_index": ob[-1].sn})
     c.cov["exhaustive_parts"] = ["all 31 occupancy patterns of tables of 0..4 slots (vacated slots at every position, two kinds of vacated slot) x %d names x 4 callers" % len(all_names),
                                  "the same tables x all ordered pairs of 8 names", "full table and 6 hole patterns x 3 callers x 3 requests",
-                                 "BoardID_t.IsValid on every string of length <= 3 over a 15-byte alphabet"]
+                                 "BoardID_t.IsValid on every string of length <= 3 over a 15-byte alphabet",
+                                 "production build: GetBid of EVERY name of every big table (%s boards) in its own and in swapped letter case, after the reload and after every request, against a scan" % ", ".join(str(len(cs.slots)) for cs in bcases)]
     vf.ipc_cleanup()
     c.finish(rule="tables: complete enumeration of occupancy patterns up to 4 slots + full/nearly full tables; requests: complete singles and pairs over the name pool, PRNG(seed) triples varying caller, parent, "
-                  "class, title, moderators, attributes, level, group flag; a subset repeated through the gin router. A case is non-trivial if its (table, request prefix) is distinct; "
+                  "class, title, moderators, attributes, level, group flag; a subset repeated through the gin router. Production build (-tags docker, MAX_BOARD = 20000): tables of 2000, 4100 and 6000 boards "
+                  "(sequential names; PRNG(seed) mixed-case names with vacated slots and all board directories), one of 4100 through the router, one full table of 20000; on each a fixed request list: duplicates "
+                  "(own / swapped / upper / lower case) of the three names that need the most probes of the binary search (computed by the check from the sorted order), of the alphabetically first and last name and "
+                  "of three PRNG names, fresh names, their case twins, a malformed name, callers without rights; the thorough tier adds 24 tables between 1024 and 20000 boards. "
+                  "A case is non-trivial if its (table, request prefix) is distinct; "
                   "every observation compares all .BRD bytes, the shared-memory copy, moderator cache, both sorted indexes, GetBid of %d names and the directory tree" % len(POOL),
-             assumptions=["sort.Sort is library code: its result enters the model as an oracle that must be a sorted permutation (checked by the model and, independently, by the check)",
+             assumptions=["big tables (production build) are compared with the model for the by-name lookup only (op 7: names in shared memory + the index the implementation built -> GetBid of the request names, "
+                          "the deepest names and 1200 sampled names; tables up to 6000 boards in the quick tier, all in the thorough tier); the creation steps on big tables are decided by the direct predicates, "
+                          "the full creation model is instantiated with the default build's MAX_BOARD = 100",
+                          "sort.Sort is library code: its result enters the model as an oracle that must be a sorted permutation (checked by the model and, independently, by the check)",
                           "the user index (C04) is represented in a case by its restriction to the ids the case mentions",
                           "ResetBoard's busy guard and the hidden-board friend list (no `visible` file in a new directory) are outside the model; the driver is sequential",
                           "groupOp's side effect on the caller's own permission bits (PERM_SYSSUBOP|PERM_BM) is outside the property's state"])
